@@ -4,7 +4,7 @@ HOOKS = {
     "guard": "cfg(kani)",
     "enable": "set only by Kani's compiler wrapper: `cargo kani` compiles /repo's crates with --cfg kani; a normal cargo build/test never sets it",
     "baseline_off_cmd": BASELINE_OFF,
-    "source_commits": ["b28bb74", "5b88d2d"],
+    "source_commits": ["b28bb74", "5b88d2d", "3555166", "aed8fda"],
     "add_only": True,
 }
 NOTES = ("Solver-based checking with Kani/CBMC of /repo's compiled code. Every check regenerates its harness shell from /repo's "
@@ -41,8 +41,74 @@ CLAIMS["C18"] = dict(
          "array lengths >= 2^32.",
     technique="Kani/CBMC bounded model checking of the re-instantiated layout kernel against declarative ABI rules")
 
+
+SHELL_NOTE = ("Trusted: Kani's MIR->GOTO translation, CBMC; lib/shellgen.py re-instantiates VM::run_fast's body per opcode group with four listed textual "
+              "edits (self-checked) because the 4000-line loop cannot be executed in situ; stubs (RandomState, fmt::format, runtime_error's stack trace, "
+              "native calls, global-layout switching) are listed per obligation in the evidence. GC never runs in an obligation (no_gc_depth=1).")
+CLAIMS["C01"] = dict(
+    text="Folding kernels only: for every operator, fold_int_binary / fold_float_binary are called with symbolic operands (full i64 x i64 for + - shifts, "
+         "bit ops and comparisons; one operand <= 12 bits for *, divisor <= 8 bits for / %; all f64 bit patterns for float + - and comparisons) and whatever "
+         "they fold must equal the VM's single-operation result (48-bit wrap, truncating division via the defining relation, & 63 shift mask), and nothing may "
+         "be folded where the VM raises an error. C02's reference obligations tie the same reference to the real opcode handlers.",
+    design_ref="DESIGN.md §2 C01",
+    note="Out: constant propagation, dead-code elimination, inlining and their interactions (AST-shape reasoning over Strings and Boxes), float * / %, "
+         "multiplication/division with both operands large. Hook: cfg(kani) child module of constant_fold::expr::binary (kernels are pub(super)).",
+    technique="Kani/CBMC bounded model checking of the constant-folding kernels against the VM's operation semantics, one SAT query per operator")
+CLAIMS["C02"] = dict(
+    text="VM-side kernels only: (a) every generic arithmetic/comparison/shift/bit opcode handler, run for one step in the reduced dispatch shell on symbolic "
+         "operands, equals a definitional single-operation evaluator written from the language spec; (b) Function::add_constant returns an index holding "
+         "exactly the added value's bits for any two 64-bit Values; (c) frame-state coherence across every call/return opcode is decided under C04 "
+         "(cached locals == new top frame).",
+    design_ref="DESIGN.md §2 C02",
+    note=SHELL_NOTE + " Out: everything source-level (scoping, closures-by-reference across frames, for-each lowering), register allocation, float * / %.",
+    technique="Kani/CBMC bounded model checking of the real opcode handlers against a definitional evaluator (differential single steps)")
+CLAIMS["C05"] = dict(
+    text="Single call steps from arbitrary cache states: for CallGlobal, CallGlobalMono and CallGlobalNative, with the two words after the instruction arbitrary "
+         "and every call-site cache entry either empty or the entry of *either* of two live functions (slot ids are not unique across compilation units), the "
+         "frame pushed runs the code of the function the global denotes now, or that native is called, or an error is reported; set_global_by_index leaves no "
+         "cache entry; cache-word packing round-trips.",
+    design_ref="DESIGN.md §2 C05",
+    note=SHELL_NOTE + " Bounds: 2 callees + 1 native, cache of 2 entries, one global layout. Out: per-function layout switching, module boundaries, CallUpval (C04).",
+    technique="Kani/CBMC bounded model checking of the real call handlers from arbitrary inline-cache states")
+CLAIMS["C06"] = dict(
+    text="Mechanism only: (a) every typed (II/FF) and guarded (IIG/FFG) opcode and its generic twin are executed from identical symbolic states and must end the "
+         "same way (typed ones on operands of their type, guarded ones on any Values); (b) select_opcode over all operators x all leaf types: an unguarded "
+         "typed opcode only for two operands of its class, int/float mixes get the guarded float form, anything else the generic opcode.",
+    design_ref="DESIGN.md §2 C06",
+    note=SHELL_NOTE + " Out: whether inference ever labels a dynamically-fed position certain (sema over string-keyed environments), float * / % pairs, "
+         "Eq/Ne on NaN operands (generic Eq compares identical bits as equal).",
+    technique="Kani/CBMC bounded model checking: differential execution of typed/guarded vs generic opcode handlers, plus exhaustive solver check of opcode selection")
+CLAIMS["C09"] = dict(
+    text="Manual-memory opcodes (Alloc, Free, LoadMem(I), StoreMem(I)) run for one step against an executable model from a manual heap with a live and a freed "
+         "buffer, all operand registers arbitrary Values (negative, huge, non-int, null): legal accesses behave like an independent array, everything else is an "
+         "error and changes nothing, and the charge is exactly 8 bytes per live slot; every 2-operation history of the real ManualHeap API agrees with the model.",
+    design_ref="DESIGN.md §2 C09",
+    note=SHELL_NOTE + " Out: byte buffers (stdlib/bytes.rs natives), histories longer than 2 from the empty heap except through the single-step obligations.",
+    technique="Kani/CBMC bounded model checking of the manual-memory handlers and ManualHeap API against an executable model")
+CLAIMS["C10"] = dict(
+    text="Budget arithmetic with a symbolic near-limit state (0..64 bytes of headroom): alloc_string, manual_alloc, alloc_array, check_element_request for every "
+         "argument value: admitted iff the charge fits, charged exactly, otherwise OutOfMemory / InvalidAllocationSize with nothing charged and no overflow; "
+         "VecPush growth at the limit.",
+    design_ref="DESIGN.md §2 C10",
+    note=SHELL_NOTE + " Out: byte-buffer natives, string natives (repeat/pad), merge_heap; Vec growth accounting is a recorded known finding.",
+    technique="Kani/CBMC bounded model checking of the VM's allocation entry points from a symbolic near-limit heap state")
+CLAIMS["C13"] = dict(
+    text="VM mechanism only: EnterNoGc adds one at every depth (no saturation), ExitNoGc subtracts one or reports underflow at zero leaving depth 0, nothing else "
+         "changes; with the collection threshold crossed and depth 1, 2 or 64, maybe_collect frees nothing.",
+    design_ref="DESIGN.md §2 C13",
+    note=SHELL_NOTE + " Out: that the compiler emits a matching exit on every return path, inlining, and restoration after a runtime error.",
+    technique="Kani/CBMC bounded model checking of the no-gc depth handlers and maybe_collect")
+CLAIMS["C20"] = dict(
+    text="Opcode level, strings of 2-4 symbolic bytes assumed valid UTF-8, against an oracle that does not use the code under test (scalar width from the first "
+         "byte; characters = non-continuation bytes): one StringForLoop step from any boundary offset yields exactly the scalar there and the next boundary "
+         "(inductive step; base offset 0), StringLoadChar(s,i) for any Value i, len = byte length, string.char_len = number of scalars.",
+    design_ref="DESIGN.md §2 C20",
+    note=SHELL_NOTE + " VM::intern_string is stubbed by alloc_string. Out: strings longer than 4 bytes except through the inductive argument; source-level lowering.",
+    technique="Kani/CBMC bounded model checking of the string opcode handlers against a first-byte UTF-8 oracle (inductive iteration step)")
+
 NOT_APPLICABLE = {
     "C03": "every obligation must execute Heap::mark; on a fully concrete two-object heap CBMC needs ~290 s of symbolic execution and the SAT query does not finish in 14 min (object kinds read back from Vec<Option<GcObject>> are not constant-propagated, every kind's tracing loop and Vec growth is unrolled per worklist step); symbolic heaps are far beyond reach",
+    "C08": "the binary reader cannot be symbolically executed within reach: deserialize(serialize(f)) for the smallest function (one word, one immediate constant) gave no verdict in 900 s, and a 6-byte symbolic tail after a fixed header none in 900 s (Cursor/Read plumbing and Vec growth per field); the one reload mechanism in reach, cold call sites, is decided under C05",
     "C11": "a negative reachability statement over HashMap<String,Value> globals, the native registry, module-path resolution, dynamic loading and real file/socket/process FFI; Kani cannot finish three inserts into a string-keyed map (>600 s) and does not model the syscalls",
     "C14": "histories of whole compile-and-run pipelines sharing string-keyed session tables through run_fast, which cannot be executed under CBMC (goto-instrument OOM at 40 GB); the one REPL mechanism in reach (call-site cache reuse) is decided under C05",
     "C16": "hash-map iteration order under a random RandomState and cloning of pipeline stage outputs keyed by (String,u64); Kani must stub the random state to run at all, which removes the nondeterminism in question",
@@ -51,6 +117,6 @@ NOT_APPLICABLE = {
 }
 # not yet built (kept current as checks are added)
 PENDING = {p: "check under construction in this session (see DESIGN.md); not claimed until its quick tier passes on the unchanged tree"
-           for p in ["C01", "C02", "C05", "C06", "C07", "C08", "C09", "C10", "C13", "C15", "C20"]}
+           for p in ["C07", "C15"]}
 for _p, _r in PENDING.items():
     NOT_APPLICABLE.setdefault(_p, _r)
